@@ -545,6 +545,9 @@ class StmtMixin(ExecBase):
             raise StaleContract("%s::%s: while loop (ordinal %s, line %d) has no invariant" % (self.file, self.qual, ordinal, s.lineno))
         self.coerce_loop_locals(st, spec)
         self.check_invariants(st, ctx, spec, ordinal, "entry", s.lineno, {})
+        self.join_loop(s, None, st, ctx, k, lambda st_, k_: self.run_while(s, st_, ctx, k_, ordinal, spec))
+
+    def run_while(self, s, st, ctx, k, ordinal, spec):
         entry = st.fork()
         head = st.fork()
         locs = self.havoc_for_loop(head, ctx, s.body + [ast.Expr(value=s.test)], spec, ordinal)
@@ -624,6 +627,7 @@ class StmtMixin(ExecBase):
     def ex_For(self, s, st, ctx, k):
         if s.orelse:
             raise Unsupported("for/else")
+        for_info = []
 
         def got_iter(st1, itv):
             if isinstance(itv, VObj):
@@ -631,6 +635,7 @@ class StmtMixin(ExecBase):
                 return self.call_method(st1, ctx, itv, "__iter__", [], {}, lambda s2, r: got_iter(s2, r), s)
             cnt, el, adv, ety = self.iter_source(st1, ctx, itv, s)
             ordinal, spec = self.loop_spec(ctx, s)
+            for_info[:] = [(itv, (cnt, el, adv, ety), ordinal, spec, "_i%d" % (ordinal if ordinal is not None else -1))]
             if cnt is None:
                 return self.unroll_for(s, st1, ctx, el, k)
             scnt = z3.simplify(cnt)
@@ -641,6 +646,11 @@ class StmtMixin(ExecBase):
             iv = "_i%d" % ordinal
             self.coerce_loop_locals(st1, spec)
             self.check_invariants(st1, ctx, spec, ordinal, "entry", s.lineno, {iv: VInt(0), "_n%d" % ordinal: VInt(cnt)})
+            sig = (z3.simplify(cnt).get_id(), type(itv).__name__)
+            self.join_loop(s, sig, st1, ctx, k, lambda st_, k_: run_for(st_, k_))
+
+        def run_for(st1, k):
+            itv, (cnt, el, adv, ety), ordinal, spec, iv = for_info[0]
             entry = st1.fork()
             head = st1.fork()
             locs = self.havoc_for_loop(head, ctx, s.body, spec, ordinal, assigned_names([ast.Assign(targets=[s.target], value=ast.Constant(value=None))]))
@@ -675,6 +685,120 @@ class StmtMixin(ExecBase):
                 self.assign(s.target, x, sa, ctx, lambda s3: self.ex_block(s.body, s3, inner, body_done), s)
             self.branch(head, i < cnt, iterate, exit_normal)
         self.ev(s.iter, st, ctx, got_iter)
+
+    # ------------------------------------------------------------ joining paths at loop heads
+    def join_loop(self, node, sig, st, ctx, k, runner):
+        """Paths that reach the same top-level loop are joined: the loop is verified once from the facts common to all
+        of them (dropping path-specific facts only weakens the hypotheses)."""
+        if self.inline_depth > 0 or getattr(ctx, "qual", None) != getattr(self, "top_qual", None) or getattr(ctx, "catching", ()):
+            return runner(st, k)
+        key = (id(node), sig)
+        ent = self.pending_loops.setdefault(key, dict(node=node, entries=[], runner=runner, k=k, ctx=ctx))
+        ent["entries"].append(st)
+
+    def drain_loops(self):
+        while self.pending_loops:
+            key = min(self.pending_loops, key=lambda kk: (self.pending_loops[kk]["node"].lineno, str(kk[1])))
+            ent = self.pending_loops.pop(key)
+            merged = self.merge_states(ent["entries"], ent["node"], ent["ctx"])
+            ent["runner"](merged, ent["k"])
+
+    def merge_states(self, sts, node, ctx):
+        if len(sts) == 1:
+            return sts[0]
+        from .spec import ite_val
+        from .exec import has_quant
+        m = sts[0].fork()
+        sel = z3.Int(fresh_name("path"))
+
+        def ite_terms(ts):
+            r = ts[-1]
+            for i in range(len(ts) - 2, -1, -1):
+                r = z3.If(sel == i, ts[i], r)
+            return r
+        # path condition: the facts common to every path; quantifier-free path-specific facts stay, guarded by the selector
+        common = None
+        for s_ in sts:
+            ids = {t.get_id() for t in s_.pc}
+            common = ids if common is None else (common & ids)
+        m.pc = [t for t in sts[0].pc if t.get_id() in common]
+        m.pc.append(z3.And(0 <= sel, sel < len(sts)))
+        for i, s_ in enumerate(sts):
+            for t in s_.pc:
+                if t.get_id() not in common and not has_quant(t):
+                    m.pc.append(z3.Implies(sel == i, t))
+        ordinal, spec = self.loop_spec(ctx, node)
+        types = {n: parse_ty(t) for n, t in (spec.get("types", {}) if spec else {}).items()}
+        # store: same value kept; same shape -> selector ite; otherwise fresh of the declared/joined type
+        names = set(sts[0].store)
+        for s_ in sts[1:]:
+            names &= set(s_.store)
+        newstore = {}
+        for n in names:
+            vals = [s_.store[n] for s_ in sts]
+            if all(self.same_value(vals[0], v) for v in vals[1:]):
+                newstore[n] = vals[0]
+                continue
+            try:
+                ty = types[n] if n in types else self.join_types([ty_of(v) for v in vals])
+                cv = [coerce(v, ty) for v in vals]
+                r = cv[-1]
+                for i in range(len(cv) - 2, -1, -1):
+                    r = ite_val(sel == i, cv[i], r)
+                newstore[n] = r
+            except (Unsupported, AttributeError, KeyError, TypeError):
+                try:
+                    newstore[n] = fresh_value(m, types[n], n) if n in types else None
+                except Unsupported:
+                    newstore[n] = None
+                if newstore[n] is None:
+                    del newstore[n]     # differently shaped on different paths: unbound after the join
+        m.store = newstore
+        # heap, cells, ghost output: exact selector-guarded merge
+        keys = set()
+        for s_ in sts:
+            keys |= set(s_.heap)
+        for key in keys:
+            srt = next(s_.heap[key] for s_ in sts if key in s_.heap).sort()
+            arrs = [s_.heap.get(key) if key in s_.heap else z3.Const("H0!" + key, srt) for s_ in sts]
+            m.heap[key] = arrs[0] if all(arrs[0].eq(a) for a in arrs[1:]) else ite_terms(arrs)
+        for cell in set().union(*[set(s_.cells) for s_ in sts]):
+            vals = [s_.cells.get(cell) for s_ in sts]
+            if any(v is None for v in vals):
+                m.cells.pop(cell, None)
+                continue
+            m.cells[cell] = vals[0] if all(vals[0].eq(v) for v in vals[1:]) else ite_terms(vals)
+        if sts[0].out is not None:
+            outs = [s_.out for s_ in sts]
+            if not all(o.n.eq(outs[0].n) and all(x.eq(y) for x, y in zip(o.comps, outs[0].comps)) for o in outs[1:]):
+                m.out = VSeq(outs[0].elem, ite_terms([o.n for o in outs]),
+                             [ite_terms([o.comps[j] for o in outs]) for j in range(len(outs[0].comps))])
+        return m
+
+    def same_value(self, a, b):
+        if a is b:
+            return True
+        if type(a) is not type(b):
+            return False
+        if isinstance(a, (VInt, VBool, VU)):
+            return a.t.eq(b.t)
+        if isinstance(a, VObj):
+            return a.classes == b.classes and a.t.eq(b.t)
+        if isinstance(a, VList):
+            return a.t.eq(b.t)
+        if isinstance(a, VStr):
+            return a.t.eq(b.t)
+        if isinstance(a, VNone):
+            return True
+        if isinstance(a, VOpt):
+            return a.isnone.eq(b.isnone) and self.same_value(a.val, b.val)
+        if isinstance(a, VTuple):
+            return len(a.items) == len(b.items) and all(self.same_value(x, y) for x, y in zip(a.items, b.items))
+        if isinstance(a, VIter):
+            return a.cell == b.cell
+        if isinstance(a, VFunc):
+            return a.kind == b.kind and getattr(a, "node", None) is getattr(b, "node", None) and getattr(a, "name", None) == getattr(b, "name", None)
+        return False
 
     def unroll_for(self, s, st, ctx, items, k):
         def go(j, st1):
